@@ -131,6 +131,14 @@ func run(repo, dir string, seed uint64, tier string, nprog, nwild int, keep bool
 	for i := 0; i < nprog; i++ {
 		p := idlgen.Generate(r, valueConfig(r, i))
 		p.Stats(out.Count)
+		if i%2 == 1 {
+			addClash(r, p, i, out.Count) // colliding field names and struct literals over them
+		}
+		countProgramShapes(out, p)
+		if i%5 == 1 || i%5 == 3 {
+			(&decorator{r: r, every: 60, count: out.Count}).program(p) // comments and white space around the tokens of values
+			out.Count("decorated.program")
+		}
 		progs = append(progs, p)
 		for j := 0; j < 3; j++ {
 			o := optionSets[(i*2+j*3+int(seed))%len(optionSets)]
@@ -435,7 +443,6 @@ func valueOps(r *vl.Rng, ud *unitData, out *vl.Out) []*opLine {
 		}
 		rt := ud.prog.Resolve(ic.Type).String()
 		want := values.SortMaps(ic.Value.Val)
-		countShape(out, "const", ic.Value)
 		text := fmt.Sprintf("K %s %d %s %s", u.Key, cd.file, vl.Hex(cd.c.Name), rt)
 		ls = append(ls, &opLine{text: text, driver: true, ud: ud, what: "K", nontrivial: true, item: defText(ud.prog, cd.file, "const", cd.c.Name), check: func(ans string) string {
 			return sameValue(ans, want)
@@ -453,9 +460,7 @@ func valueOps(r *vl.Rng, ud *unitData, out *vl.Out) []*opLine {
 		for _, f := range ud.prog.Files[st.File].Structs {
 			if f.Name == st.Name {
 				for _, fd := range f.Fields {
-					if fd.Default != nil {
-						countShape(out, "default", fd.Default)
-					}
+					_ = fd
 				}
 			}
 		}
